@@ -278,10 +278,13 @@ func (g *Generator) generateBytesFieldUnmarshal(gf *protogen.GeneratedFile, fiel
 	//exhaustive:ignore -- only non-default encodings reach here; UNSPECIFIED/BASE64 are filtered by hasBytesEncodingFields
 	switch encoding {
 	case http.BytesEncoding_BYTES_ENCODING_HEX:
+		// Unlike the base64 variants, text that is not valid hex must not fall through to
+		// protojson: its base64 decoder would accept it as different bytes.
 		gf.P("decoded, decErr := hex.DecodeString(s)")
-		gf.P("if decErr == nil {")
-		gf.P(`raw["`, jsonName, `"], _ = json.Marshal(base64.StdEncoding.EncodeToString(decoded))`)
+		gf.P("if decErr != nil {")
+		gf.P("return decErr")
 		gf.P("}")
+		gf.P(`raw["`, jsonName, `"], _ = json.Marshal(base64.StdEncoding.EncodeToString(decoded))`)
 	case http.BytesEncoding_BYTES_ENCODING_BASE64_RAW:
 		gf.P("decoded, decErr := base64.RawStdEncoding.DecodeString(s)")
 		gf.P("if decErr == nil {")
